@@ -295,6 +295,7 @@ type mCmd struct {
 	tblobs     []uint64    // blobs named by the command
 	ttracts    [][2]uint64 // (blob, index) of the tracts named by ChangeTract / CommitRSChunk
 	scanCutoff int64       // FinishDelete: cutoff of the scan that produced the list
+	noVersion  bool        // CommitRSChunk whose entries carry NewVersion < 2 ("no version": not checked by the command)
 }
 
 func (c *mCmd) line(idx uint64) []int64 {
@@ -404,6 +405,7 @@ type mGen struct {
 	maxTS  int
 
 	lastAllocCls int
+	everSeen     map[uint64]bool // blob ids that existed at some point (to name already-removed ones)
 }
 
 const mSec = int64(time.Second)
@@ -474,6 +476,12 @@ func (g *mGen) blobID(d *mDump, preferDeleted bool) uint64 {
 
 // remember what a curator loop would have read at this point (used later, possibly stale)
 func (g *mGen) observe(d *mDump) {
+	if g.everSeen == nil {
+		g.everSeen = map[uint64]bool{}
+	}
+	for _, b := range d.blobs {
+		g.everSeen[b.id] = true
+	}
 	for _, b := range d.blobs {
 		if b.del != 0 {
 			continue
@@ -592,8 +600,48 @@ func (g *mGen) undel(d *mDump) *mCmd {
 	return &mCmd{op: 8, args: []int64{int64(id)}, cmd: UndeleteBlobCommand{ID: core.BlobID(id)}, kind: "UndeleteBlob", tblobs: []uint64{id}}
 }
 
+// a FinishDelete as older versions logged it / as StateHandler.FinishDelete(blobs) still proposes it: no cutoff.
+// Only harmless lists are generated (blobs currently marked deleted, blobs that are already gone, unknown ids), possibly
+// with repeated ids, so that the legacy semantics cannot remove a live blob here.
+func (g *mGen) finishLegacy(d *mDump) *mCmd {
+	var cand []uint64
+	for _, b := range d.blobs {
+		if b.del != 0 {
+			cand = append(cand, b.id)
+		}
+	}
+	var gone []uint64
+	for id := range g.everSeen {
+		if d.blob(id) == nil {
+			gone = append(gone, id)
+		}
+	}
+	sort.Slice(gone, func(i, j int) bool { return gone[i] < gone[j] })
+	cand = append(cand, gone...)
+	cand = append(cand, uint64(9)<<32|1, uint64(1)<<32|4000)
+	n := g.r.Range(1, 3)
+	var ids []core.BlobID
+	for i := 0; i < n; i++ {
+		ids = append(ids, core.BlobID(cand[g.r.Intn(len(cand))]))
+	}
+	if g.r.Chance(1, 2) {
+		ids = append(ids, ids[0]) // the same id twice in one command
+	}
+	c, _ := mFinishCmd(ids, 0)
+	args := []int64{0, int64(len(ids))}
+	m := &mCmd{op: 9, args: args, cmd: c, kind: "FinishDelete", scanCutoff: 1 << 62}
+	for _, id := range ids {
+		m.args = append(m.args, int64(id))
+		m.tblobs = append(m.tblobs, uint64(id))
+	}
+	return m
+}
+
 // FinishDelete from an earlier scan (stale allowed); nil if no scan found anything yet
 func (g *mGen) finish(d *mDump) *mCmd {
+	if g.r.Chance(1, 5) {
+		return g.finishLegacy(d)
+	}
 	if len(g.scans) == 0 {
 		return nil
 	}
@@ -609,6 +657,9 @@ func (g *mGen) finish(d *mDump) *mCmd {
 	}
 	if len(ids) == 0 {
 		ids = append(ids, core.BlobID(sc.ids[0]))
+	}
+	if g.r.Chance(1, 4) {
+		ids = append(ids, ids[g.r.Intn(len(ids))]) // a repeated id within one command
 	}
 	c, cutoff := mFinishCmd(ids, sc.cutoff)
 	args := []int64{cutoff, int64(len(ids))}
@@ -767,7 +818,18 @@ func (g *mGen) commit(d *mDump) *mCmd {
 			Offset: offs[p], Length: ln, NewVersion: int(rd.ver) + 1})
 		offs[p] += ln
 	}
-	return g.mkCommit(al.part, id, cls, hs, data)
+	// boundary stream: entries that carry no version (NewVersion 1); the command does not check those
+	noVer := g.r.Chance(1, 6)
+	if noVer {
+		for _, p := range data {
+			for i := range p {
+				p[i].NewVersion = 1
+			}
+		}
+	}
+	m := g.mkCommit(al.part, id, cls, hs, data)
+	m.noVersion = noVer
+	return m
 }
 
 func (g *mGen) rsHosts(d *mDump) *mCmd {
